@@ -294,6 +294,8 @@ func init() {
 			// numerals at the edges of what fits anywhere: long exponents, long mantissas, many leading zeros of the exponent
 			"1e0000001", "1E+0000000001", "-0.0e-0000001", "1e99999", "1e-99999", "123456789012345678901234567890", "0." + strings.Repeat("0123456789", 30),
 			"-" + strings.Repeat("9", 400), "1e" + strings.Repeat("0", 300) + "1",
+			// regex types the example generator cannot serve (empty classes)
+			"/[^\\x00-\\x{10FFFF}]/", "/[^\\s\\S]/", "/a[^\\x00-\\x{10FFFF}]+b/",
 			// lines longer than the excerpt of an error message, made of bytes that are not characters on their own
 			strings.Repeat("\x80", 300), strings.Repeat("\u00e9", 150) + "x", "{\n" + strings.Repeat("\xbf", 260), strings.Repeat("a", 198) + "\u20ac" + strings.Repeat("b", 50)} {
 			try(t)
